@@ -439,6 +439,7 @@ func c12(c *Ctx) {
 		{fn: "codecs/vp9.(*Header).Unmarshal", want: []int{1}, minOnly: true, why: "show_existing_frame header fits one octet"}})
 	r.Floor("VP9 presence rows", np, 13)
 	colorConfigScript(c)
+	r.Floor("VP9 uncompressed header cases (BITS.vp9hdr)", vp9HeaderScript(c), 20)
 	var entries []*ssa.Function
 	for _, nme := range []string{"codecs.(*VP9Payloader).Payload", "codecs.(*VP9Packet).Unmarshal", "codecs.(*VP9Packet).IsPartitionHead", "codecs/vp9.(*Header).Unmarshal"} {
 		if f := p.Func(nme); f != nil {
